@@ -286,6 +286,11 @@ def step (st : State) (w : List String) : State × String :=
       if !adm then (st, "refused") else
       (st, s!"ecs={boolStr (ednsMarks (some l))} nsid={boolStr (l.any (fun o => o.code == 3))} ka={boolStr (l.any (fun o => o.code == 11))}")
     | _, _ => (st, "bad-op")
+  | ["ecs", "capttl", cap, ttl, sc] =>
+    -- lifetime of an entry filed by the store for a response with TTL `ttl`
+    match cap.toNat?, ttl.toNat?, parseBool sc with
+    | some cap, some ttl, some sc => (st, s!"ttl={storedTTL sc cap ttl}")
+    | _, _, _ => (st, "bad-op")
   | ["ecs", "readscope", opts] =>
     match parseOpts opts with
     | some o => (st, showPrefix? (readResponseScope o))
@@ -385,6 +390,12 @@ def step (st : State) (w : List String) : State × String :=
       let ka := (proto == "tcp" || proto == "wtcp" || proto == "rtcp") && f.copts.any (fun o => o.code == 11)
       (st, s!"rcode=5 ropt={showOptSet (rejectReplyBehind f.noedns f.fwd (serverOpts f.copts) ka)}")
     | _, _ => (st, "bad-op")
+  | ["pipe", "failover", _c, proto, copts] =>
+    -- primary resolution fails; what the fallback servers are asked
+    match clientOpts proto copts with
+    | some none => (st, "formerr")
+    | some (some copts?) => (st, s!"fb={showOpts true (some (fallbackQueryOpts copts?))} rcode=0")
+    | none => (st, "bad-op")
   | ["pipe", "badvers", c, _proto, _ver, copts] =>
     match parseClient c true, parseOpts copts with
     | some client, some (some l) =>
@@ -467,6 +478,10 @@ def step (st : State) (w : List String) : State × String :=
         if decl.startsWith "S" then
           match firstEcs f.fwd, (decl.drop 1).toNat? with
           | some s, some b => some [.ecs { s with scope := b }]
+          | _, _ => some []
+        else if decl.startsWith "T" then
+          match firstEcs f.fwd, (decl.drop 1).toNat? with
+          | some s, some b => some [.ecs { s with mask := b, scope := b }]
           | _, _ => some []
         else if decl == "-" then some []
         else (parseOpt decl).map (fun o => [o])
